@@ -106,10 +106,38 @@ def sweep_cases(tier, seed, interrupts=False, lib=None):
                             yield dict(base, calls=calls)
                     if not interrupts:
                         for j, ln in enumerate(faultlab.reply_lengths(base, t)):
-                            for f in faultlab.tampers_for_reply(j, ln):
+                            for f in faultlab.tampers_for_reply(j, ln, every_byte=(tier == "thorough" and kind in ("client", "hash"))):
                                 calls = [dict(c) for c in base["calls"]]
                                 calls[t] = dict(calls[t], faults=[f])
                                 yield dict(base, calls=calls)
+
+
+def serde_failure_cases(tier, seed):
+    """a deserialiser that raises (any exception type) part-way through a reply: the rest of that reply must not be
+    left on a connection that stays in use"""
+    reads = [{"op": "get", "key": "t"}, {"op": "gets", "key": "n"}, {"op": "get_many", "keys": ["t", "n", "x4"]}, {"op": "gets_many", "keys": ["n", "t"]},
+             {"op": "gat", "key": "t", "expire": 5}, {"op": "gats", "key": "x4", "expire": 0}, {"op": "get_many", "keys": ["x4", "t"]}]
+    for kind, extra in STACKS:
+        for ie in (False, True):
+            for exc in sorted(faultlab.FailingSerde.EXC):
+                for r in reads:
+                    for keys in (None, ["t"], ["n"], ["x4"]):
+                        for co in (False, True):
+                            yield {"kind": kind, "cfg": dict(extra, ignore_exc=ie, failing_serde={"exc": exc, "keys": keys}), "coalesce": co,
+                                   "pieces": None if co else [4096],
+                                   "calls": [{"op": r}, {"op": {"op": "set", "key": "follow", "value": b"fv", "noreply": False}, "advance": 5},
+                                             {"op": {"op": "delete", "key": "follow", "noreply": False}}, {"op": {"op": "version"}}]}
+
+
+def check_serde_failure(case):
+    state = {"seen": 0}
+    run = interpret(case, observer_factory(case, state))
+    a, b = run.outcomes[1], run.outcomes[2]
+    if a != ("ok", True) or b != ("ok", True):
+        raise Violation(["follow-up", case["kind"]], "after a failing deserialiser the follow-up set/delete returned %r / %r; history %r on %s cfg %r"
+                        % (_short(a), _short(b), _hist(case), case["kind"], case.get("cfg")))
+    first = run.outcomes[0]
+    return True, [case["kind"], "deserialiser:" + case["cfg"]["failing_serde"]["exc"], "first=" + ("raised" if first[0] == "exc" else "returned")]
 
 
 def minimise(case, still_fails):
@@ -152,6 +180,7 @@ def history_strategy(tier, interrupts=False):
 
 PARTS = [
     Part("single-fault-sweep", "enum", check, cases=sweep_cases, exhaustive=True),
+    Part("deserialiser-failures", "enum", check_serde_failure, cases=serde_failure_cases, exhaustive=True),
     Part("random-histories", "hyp", check, strategy=history_strategy, minimise=None,
          examples={"quick": 400, "thorough": 4000}, shards={"quick": 6, "thorough": 16}),
 ]
